@@ -27,8 +27,14 @@ MANIFEST = dict(
 )
 
 
+# rules that keep their verdict however the code is laid out (decided by term equality, effect analysis or dominance over
+# resolved calls); every other rule of this check is a template rule (vcheck.core.Check.obt)
+SEMANTIC = ('R02.1b', 'R02.1c', 'R02.2a', 'R02.2b', 'R02.2c', 'R02.4', 'R02.6b', 'R02.6c', 'R02.7i')
+
+
 def run(chk):
     repo = PyRepo()
+    chk.set_templates(repo, semantic=SEMANTIC)
     chk.explanation = MANIFEST["text"]
     chk.trusted = ["slice.indices", "numpy.unique", "CPython ast", "clang 14 AST", "networkx"]
     chk.assume("slice steps are positive (property quantifier)")
